@@ -1,4 +1,5 @@
 import BctVerif.Lemmas.ModularityLabels
+import BctVerif.Lemmas.ModularityDir
 
 /-! # What *is* true of `modularity_louvain_dir` as coded (defect D6): labels exactly `1..k` at every level,
 and the first level is a consistent `(ci, q)` pair -/
@@ -213,5 +214,90 @@ theorem louvainDir_level1 (W : RMat n) (γ : ℚ) (ds : List ℕ) (out : Out n)
           rw [show aggA W m' n = aggFull W m' from aggA_full W m', qTraceDot_aggFull]
           have : labOf (compose (idLab n) m') = labOf m' := compose_idLab m'
           rw [this]
+
+end Bct.Modularity
+
+namespace Bct.Modularity
+open Finset
+
+variable {n : ℕ}
+variable {g0 : GState}
+
+/-- on symmetric input the start of a level of `modularity_louvain_dir` as written (`knm_i = W.copy()`) satisfies the
+bookkeeping invariant of the directed kernel: `knm_o + knm_i = 2W = W + Wᵀ` -/
+theorem dirInitLevel_inv_symm (W : RMat n) (γ : ℚ) (hW : Symm W) :
+    DirInv W γ (dirInitLevel W (total W) γ) (labOf (idLab n)) := by
+  rw [labOf_idLab]
+  refine ⟨rfl, rfl, rfl, ?_, ?_, ?_, ?_, ?_⟩
+  · intro i; simp [dirInitLevel]
+  · intro i; simp [dirInitLevel]
+  · intro i t
+    simp only [dirInitLevel, id_eq]
+    rw [Finset.sum_eq_single t]
+    · simp [hW t i]
+    · intro j _ hj; simp [hj]
+    · simp
+  · intro t; simp [dirInitLevel]
+  · intro t; simp [dirInitLevel]
+
+theorem labFnA_full (m : Lab n) (i j : Fin n) : labFnA m n i = labFnA m n j ↔ labOf m i = labOf m j := by
+  simp only [labFnA, i.isLt, j.isLt, if_true, labOf_apply]
+  constructor
+  · intro e; exact Fin.ext (by exact_mod_cast e)
+  · intro e; rw [e]
+
+/-- **first level of `modularity_louvain_dir` on symmetric input**: its gains are exact there (`knm_i = W.copy() = W.T`), so the
+first level is at least as good as the all-singletons start. -/
+theorem louvainDir_level1_monotone_symm (W : RMat n) (γ : ℚ) (ds : List ℕ) (out : Out n)
+    (hW : Symm W) (hs : 0 < total W) (h : louvainDir W γ ds g0 = .ok out) :
+    ∀ p, out.levels[0]? = some p → Qdir W γ (id : Fin n → Fin n) ≤ Qdir W γ (labOf p.1) := by
+  unfold louvainDir at h
+  simp only [bind, Except.bind, pure, Except.pure] at h
+  split_ifs at h with hs0
+  generalize hl : louvainDirLoop W (total W) γ (ds.length + 1) (lv0 n g0) ds = res at h
+  cases res with
+  | error e => simp at h
+  | ok r =>
+    obtain ⟨L, rest⟩ := r
+    simp only at h
+    cases h
+    unfold louvainDirLoop at hl
+    simp only [bind, Except.bind, pure, Except.pure] at hl
+    generalize hp : passes (dirKern n) n (lv0 n g0).nh (ds.length + 1) _ ds = res at hl
+    cases res with
+    | error e => simp at hl
+    | ok r =>
+      obtain ⟨x, rest1⟩ := r
+      simp only at hl
+      by_cases hst : x.starved.isSome = true
+      · simp only [hst, if_true, Except.ok.injEq, Prod.mk.injEq] at hl
+        obtain ⟨rfl, _⟩ := hl
+        intro p hp'; simp [lv0] at hp'
+      · simp only [hst] at hl
+        obtain ⟨m', hm', _⟩ := toLab_ok (labFnA x.m (lv0 n g0).nh)
+        simp only [hm'] at hl
+        by_cases hstop : ((lv0 n g0).hasPrev && decide (qTraceDot (aggA W m' (lv0 n g0).nh) (total W) γ - (lv0 n g0).qprev < thr)) = true
+        · simp only [hstop, if_true, Except.ok.injEq, Prod.mk.injEq] at hl
+          obtain ⟨rfl, _⟩ := hl
+          intro p hp'; simp [lv0] at hp'
+        · simp only [hstop] at hl
+          obtain ⟨ext, he⟩ := louvainDirLoop_suffix W (total W) γ _ _ _ _ _ hl
+          intro p hp'
+          simp only [he, List.reverse_append, List.reverse_cons, lv0, List.reverse_nil, List.nil_append,
+            List.append_assoc, List.cons_append, List.getElem?_cons_zero, Option.some.injEq] at hp'
+          subst hp'
+          simp only
+          obtain ⟨_, hmono⟩ := passes_spec (dirKern_spec W γ) n n _ _ _ _ _
+            (by simpa [pst0, lv0] using dirInitLevel_inv_symm W γ hW) hp
+          have hnh : (lv0 n g0).nh = n := rfl
+          rw [hnh] at hm'
+          unfold Qdir
+          apply div_le_div_of_nonneg_right _ (le_of_lt hs)
+          rw [← Qobj_symmetrise, ← Qobj_symmetrise (Bmod W γ), compose_idLab]
+          calc Qobj (symmetrise (Bmod W γ)) (id : Fin n → Fin n)
+              = Qobj (symmetrise (Bmod W γ)) (labOf (idLab n)) := by rw [labOf_idLab]
+            _ ≤ Qobj (symmetrise (Bmod W γ)) (labOf x.m) := by simpa [pst0, lv0] using hmono
+            _ = Qobj (symmetrise (Bmod W γ)) (labOf m') :=
+                Qobj_congr _ _ _ (fun i j => by rw [← labFnA_full, labOf_toLab_congr (labFnA x.m n) m' hm'])
 
 end Bct.Modularity
